@@ -44,6 +44,9 @@ def perm_scripts(n, full_upto=4):
     return ["ID", "REV", "ROT"]
 
 
+from torchphysics.problem.conditions.condition import HPCMCondition
+
+
 class IdModel(tp.models.Model):
     """returns the first input column (the id) as output u"""
     def __init__(self):
@@ -238,7 +241,6 @@ def run_item(item):
                             cond = tp.conditions.HPM_EquationLoss_at_DataPoints(
                                 IdModel(), ld, norm, lambda x: (x % 3 + 1.0) * 0.5 + x * 0.01, root=root, use_full_dataset=True)
                         else:
-                            from torchphysics.problem.conditions.condition import HPCMCondition
                             cond = HPCMCondition(IdModel(), IdModel(), ld, lambda u: Points(0.0 * u, Space({"u": 1})),
                                                  norm=norm, root=root, use_full_dataset=True)
                         res["evals"] += 1
@@ -265,5 +267,26 @@ def run_item(item):
                             viol("C16|datacondition|not-repeatable", "%s: second evaluation %.6f differs from the first %.6f" % (cfg, val2, val))
                         elif len(chunks) > 1:
                             res["outcomes"].append(cfg)
+                        # one batch per call: call j presents batch j mod (number of batches), in the data set's order
+                        if root == 1.0 and not drop and N <= 5:
+                            if ckind == "data":
+                                c2 = tp.conditions.DataCondition(IdModel(), ld, norm=norm, root=root, use_full_dataset=False)
+                            elif ckind == "hpm":
+                                c2 = tp.conditions.HPM_EquationLoss_at_DataPoints(
+                                    IdModel(), ld, norm, lambda x: (x % 3 + 1.0) * 0.5 + x * 0.01, root=root, use_full_dataset=False)
+                            else:
+                                c2 = HPCMCondition(IdModel(), IdModel(), ld, lambda u: Points(0.0 * u, Space({"u": 1})),
+                                                   norm=norm, root=root, use_full_dataset=False)
+                            try:
+                                got = [float(c2()) for _ in range(2 * len(chunks) + 1)]
+                            except Exception as e:
+                                viol("C16|%scondition|error|%s" % (ckind, type(e).__name__), "%s (one batch per call) raised %s: %s" % (cfg, type(e).__name__, str(e)[:100]))
+                                continue
+                            res["transitions"] += len(got)
+                            per = [float(c.max()) if norm == "inf" else float(np.mean(c ** norm)) for c in chunks]
+                            want = [per[j % len(per)] for j in range(len(got))]
+                            if any(abs(g - w) > 1e-5 * max(1, abs(w)) for g, w in zip(got, want)):
+                                viol("C16|%scondition|batch-sequence|%s" % (ckind, norm), "%s, one batch per call: successive losses %s, the batches in order (cycling) give %s" % (
+                                    cfg, [round(g, 5) for g in got], [round(w, 5) for w in want]))
     res["samples"] = [{"condition": "DataCondition(use_full_dataset=True)"}]
     return res
